@@ -4486,6 +4486,24 @@ func (s *SelectStatement) RequiredPrivileges() (ExecutionPrivileges, error) {
 	if s.Target != nil {
 		ep = append(ep, ExecutionPrivilege{Admin: false, Name: s.Target.Measurement.Database, Rwuser: true, Privilege: WritePrivilege})
 	}
+
+	// the sub-query of an IN condition reads its own sources
+	var inErr error
+	WalkFunc(s.Condition, func(n Node) {
+		in, ok := n.(*InCondition)
+		if !ok || in == nil || in.Stmt == nil || inErr != nil {
+			return
+		}
+		privs, err := in.Stmt.RequiredPrivileges()
+		if err != nil {
+			inErr = err
+			return
+		}
+		ep = append(ep, privs...)
+	})
+	if inErr != nil {
+		return nil, inErr
+	}
 	return ep, nil
 }
 
